@@ -172,12 +172,12 @@ qp := r.URL.Query()
 			{{- else if eq .Type.ElemType.Type.Name "map" }}
 				{{- template "partial_query_map_conversion" (mapQueryDecodeData .Type.ElemType.Type (printf "%s[key]" .VarName) 1) }}
 			{{- else }}
-				var val{{ .Loop }} {{ goTypeRef .Type.ElemType.Type }}
+				var val {{ goTypeRef .Type.ElemType.Type }}
 				{
-					val{{ .Loop }}Raw := valRaw[0]
-					{{- template "partial_query_type_conversion" (conversionData (printf "val%s" .Loop) "query" .Type.ElemType.Type) }}
+					valRaw := valRaw[0]
+					{{- template "partial_query_type_conversion" (conversionData "val" "query" .Type.ElemType.Type) }}
 				}
-				{{ .VarName }}[key] = val{{ .Loop }}
+				{{ .VarName }}[key] = val
 			{{- end }}
 		}
 		{{- if or .DefaultValue (not .Required) }}
